@@ -170,6 +170,14 @@ let handle id kind fields =
     res_line id (run_evallist (cs v) (parse_attrs a)) (fun l -> String.concat "," (List.map hs l))
   | "rngwords", [seed; n] ->
     Printf.printf "%s\tOK\t%s\n" id (String.concat "," (List.map (fun w -> string_of_int (int_of_z w)) (run_rngwords (z_of_int (int_of_string seed)) (z_of_int (int_of_string n)))))
+  | "mdoc", [ll; vl; dl; seed; border; scale; d] ->
+    (* whole documents through the composed model: limits, seed, border, scale bits, document *)
+    let zi x = z_of_int (int_of_string x) in
+    (match run_doc (zi ll) (zi vl) (zi dl) (zi seed) (zi border) (zi scale) (cs d) with
+     | Ok s -> Printf.printf "%s\tOK\t%s\n" id (hs s)
+     | Err k -> Printf.printf "%s\tERR\t%s\n" id (implode (errkind_name k))
+     | Panic m -> Printf.printf "%s\tPANIC\t%s\n" id (implode m)
+     | OutOfFuel -> Printf.printf "%s\tOUTOFFUEL\n" id)
   | _ -> Printf.printf "%s\tSKIP\n" id
 
 let () =
